@@ -22,6 +22,19 @@ class KeyedBase:
             return self._key(item)
         return self.__get_item_key(item)
 
+    def __copy__(self):
+        # A shallow copy shares the items but not the containers that hold
+        # them (the default implementation would share `_list` / `_dict`, so
+        # changes to the copy would show through the original).
+        new = self.__class__.__new__(self.__class__)
+        new.__dict__.update(
+            {
+                attr: value.copy() if isinstance(value, (list, dict)) else value
+                for attr, value in self.__dict__.items()
+            }
+        )
+        return new
+
     # Helpers
 
     def _validate_item(self, item: ItemType) -> Tuple[ItemType, KeyType]:
